@@ -426,6 +426,18 @@ def ext_call(it, dotted, args, kw, n):
             except (ValueError, TypeError) as e:
                 raise RaiseEx(type(e).__name__, '')
         return Term(last, a)
+    if dotted == 'itertools.accumulate':
+        items = it.iterate(args[0])
+        if items is not None:
+            out, tot = [], None
+            for x in items:
+                tot = x if tot is None else it.binop(ast.Add(), tot, x)
+                out.append(tot)
+            return ListV(out)
+    if dotted == 'itertools.chain':
+        lists = [it.iterate(a) for a in args]
+        if all(l is not None for l in lists):
+            return ListV([x for l in lists for x in l])
     if dotted == 'copy.copy' or dotted == 'copy.deepcopy':
         return args[0]
     if dotted in ('typing.cast',):
